@@ -1,11 +1,12 @@
 package main
 
 import (
-	"sort"
-	"os"
 	"encoding/json"
 	"flag"
+	"google.golang.org/protobuf/types/known/timestamppb"
 	"math/rand"
+	"os"
+	"sort"
 
 	"github.com/protobom/protobom/pkg/sbom"
 	"verifharness/proj"
@@ -223,6 +224,38 @@ func genLaws(r *rand.Rand, s *scriptWriter, ids []string, rich float64) {
 	if r.Intn(8) == 0 {
 		y = clone(x)
 	}
+	if r.Intn(3) == 0 {
+		// shared nodes that compare Equal without being identical (lists in another order, a sub-second date shift):
+		// the second operand's value still wins
+		present := map[string]int{}
+		for i, n := range y.Nodes {
+			present[n.Id] = i
+		}
+		for _, n := range x.Nodes {
+			twin := shuffleNode(r, n)
+			for _, ts := range []*timestamppb.Timestamp{twin.ReleaseDate, twin.BuildDate, twin.ValidUntilDate} {
+				if ts != nil {
+					ts.Nanos = (ts.Nanos + 7) % 1000000000
+				}
+			}
+			if i, ok := present[n.Id]; ok {
+				y.Nodes[i] = twin
+			} else if r.Intn(2) == 0 {
+				y.Nodes = append(y.Nodes, twin)
+			}
+		}
+	}
+	if r.Intn(6) == 0 && !o.ill {
+		// a node whose identifier is the empty string is a node like any other (a component without reference)
+		x.Nodes = append(x.Nodes, randNode(r, "", rich))
+		if len(x.Nodes) > 1 {
+			x.Edges = append(x.Edges, &sbom.Edge{Type: pick(r, edgeTypes2), From: "", To: []string{x.Nodes[0].Id}},
+				&sbom.Edge{Type: pick(r, edgeTypes2), From: x.Nodes[0].Id, To: []string{""}})
+		}
+		if r.Intn(2) == 0 {
+			y.Nodes = append(y.Nodes, randNode(r, "", rich))
+		}
+	}
 	regs := map[string]*sbom.NodeList{"x": x, "y": y, "z": z, "e": emptyNL()}
 	for _, k := range []string{"xy", "yx", "xx", "xe", "ex", "yz", "xy_z", "x_yz", "ixy", "iyx", "ixx", "ixe", "iex", "ixu", "ax", "axx"} {
 		regs[k] = emptyNL()
@@ -286,6 +319,13 @@ func shuffled(r *rand.Rand, nl *sbom.NodeList) *sbom.NodeList {
 // genExtract: arbitrary multigraphs, every start node and depth, on the list and on a shuffled copy (C15).
 func genExtract(r *rand.Rand, s *scriptWriter, ids []string) {
 	o := listOpts{ids: ids, rich: 0.05, types: edgeTypes2, maxNodes: len(ids), ill: r.Intn(3) == 0}
+	if r.Intn(4) == 0 {
+		// identifiers that continue one another by digits, edge types whose numbers continue those digits, and several
+		// types along a path: ("p1", type 15) and ("p11", type 5) are different (source, type) pairs
+		ids = []string{"p", "p1", "p11", "p15", "p115"}[:min(len(ids), 5)]
+		o.ids, o.maxNodes = ids, len(ids)
+		o.types = []sbom.Edge_Type{1, 5, 11, 15, 51}
+	}
 	g := randList(r, o)
 	regs := map[string]*sbom.NodeList{"g": g, "p": shuffled(r, g)}
 	for _, k := range []string{"o1", "o2", "o3", "d1", "d2"} {
@@ -354,6 +394,24 @@ func genMatch(r *rand.Rand, s *scriptWriter, ids []string) {
 			for rep := 0; rep < 3; rep++ {
 				s.op("Match", "a", reg, "p", p)
 			}
+		}
+		if q == 1 && len(g.Nodes) > 0 {
+			// the list changes in place between two rounds of matching (one node replaced by another: the count stays):
+			// an answer must come from the list as it is now
+			victim := g.Nodes[r.Intn(len(g.Nodes))]
+			repl := matchNode(r, victim.Id+"-new")
+			if r.Intn(2) == 0 {
+				repl.Hashes, repl.Identifiers = victim.Hashes, victim.Identifiers
+			}
+			probe := proj.Node(&sbom.Node{Id: "probe", Hashes: victim.Hashes, Identifiers: victim.Identifiers})
+			for _, reg := range []string{"g", "p1"} {
+				// match, edit, match again on the SAME list with nothing else matched in between
+				s.op("Match", "a", reg, "p", probe)
+				s.op("Remove", "a", reg, "ids", []string{victim.Id})
+				s.op("AddNode", "a", reg, "n", proj.Node(repl))
+				s.op("Match", "a", reg, "p", probe)
+			}
+			s.op("Match", "a", "p2", "p", probe)
 		}
 	}
 }
